@@ -34,6 +34,17 @@ func main() {
 				fmt.Printf("%-60s pure=%v total=%v\n", w.FuncKey[fn], pi.pure, pi.total)
 			}
 		}
+	case "mods":
+		w, err := LoadWorld("/repo")
+		if err != nil {
+			panic(err)
+		}
+		ma := NewModAnalysis(w, ParseSpecs(w))
+		for _, fn := range w.AllFuncs {
+			if len(os.Args) < 3 || strings.Contains(w.FuncKey[fn], os.Args[2]) {
+				fmt.Printf("%-60s %s\n", w.FuncKey[fn], describeMods(ma.Of(fn)))
+			}
+		}
 	case "finals":
 		w, err := LoadWorld("/repo")
 		if err != nil {
@@ -190,9 +201,12 @@ func verifyAll(w *World, sp *Specs, mods *ModAnalysis, keys []string, families m
 	type job struct{ o *Obligation }
 	jobs := make(chan *Obligation)
 	var wg sync.WaitGroup
-	n := runtime.NumCPU()
-	if n > 16 {
-		n = 16
+	n := runtime.NumCPU() / 2
+	if n > 8 {
+		n = 8
+	}
+	if n < 1 {
+		n = 1
 	}
 	for i := 0; i < n; i++ {
 		wg.Add(1)
